@@ -5,6 +5,27 @@ def runs(quick, thorough):
     return {"quick": quick, "thorough": thorough}
 
 PROPS = {
+    "C01": dict(
+        runs=runs([("build", "release")],
+                  [("build", "release"), ("build", "lasso"), ("build", "debug")]),
+        rule="cases = real Fx collision witness per back end + every tree with <= 4 (thorough 5) elements over 2 node kinds x 6 token forms "
+             "(interned/static/static-empty/multi-byte/interned-equal-to-static) + random trees with duplicated sub-trees under hash masks "
+             "{none, 0, 1, 3, 15} (forced head collisions), deep (200) and wide (64) shapes; non-trivial = the build shared at least one small node "
+             "through the cache or collided; distinct = distinct op text",
+        assumptions=["total text < 2^32 bytes and < 2^32 children (the crate's u32 domain)"],
+        not_yet_proved=[],
+    ),
+    "C04": dict(
+        runs=runs([("history", "release")],
+                  [("history", "release"), ("history", "lasso"), ("build", "release")]),
+        rule="cases = histories of 2-8 (thorough 2-21) trees built through one long-lived cache and interner, with sub-trees re-used across "
+             "trees and earlier sub-trees rebuilt as roots, under hash masks {none, 1, 3, 0} (forced head collisions), plus the real Fx collision "
+             "spread over two trees of one cache; every tree is dumped at creation and re-dumped after all later builds; allocation identity "
+             "(verif_addr hook) is compared with the model's ghost ids; non-trivial = some small node was answered from the cache; distinct = distinct op text",
+        assumptions=["total text < 2^32 bytes and < 2^32 children (the crate's u32 domain)",
+                     "effectiveness theorems (token_shared/node_shared) are stated for an immediately repeated request; stability of node entries under *other* requests is tied by correspondence (ghost ids vs addresses), not yet proved"],
+        not_yet_proved=["node_entry_stable: a node-cache entry keeps answering its query after arbitrary other insertions (needs symmetry/transitivity of structural equality)"],
+    ),
     "C10": dict(
         runs=runs([("intern", "release"), ("intern", "lasso")],
                   [("intern", "release"), ("intern", "lasso"), ("intern", "debug"), ("intern", "lasso-debug")]),
